@@ -20,10 +20,20 @@ ASSUMPTIONS = ["inputs whose coplanarity is ambiguous (a vertex between 1e-12 an
 
 
 @st.composite
-def _case(draw, max_n=24):
+def _case(draw, max_n=24, far=False):
     return {"cvx": draw(zoo.convex3d(max_n=max_n)), "place": draw(zoo.placement(max_offset=5.0, scale_decades=1.0)),
+            "far": draw(st.sampled_from([3.0, 4.0, 5.0, 5.5, 6.0, 6.5])) if far else None,
             "perm": draw(zoo.noise(64)), "fperm": draw(zoo.noise(200)), "mode": draw(st.sampled_from(["shuffle", "reverse", "keep"])),
             "mixed": draw(st.booleans())}
+
+
+def _far(V, case):
+    """Optionally move the shape 10^k diameters away from the origin (the structure must not depend on position)."""
+    if not case.get("far"):
+        return V
+    size = 2 * float(np.max(np.linalg.norm(V - V.mean(axis=0), axis=1)))
+    d = np.array([0.6, -0.64, 0.48])
+    return V + 10.0 ** case["far"] * size * d
 
 
 def _oracle(V):
@@ -71,8 +81,11 @@ def _check_structure(rec, P, V, facets, nrm, off, edges, nb, sig, ambiguous, con
     eq = np.asarray(eq, dtype=float)
     rec.check(np.array_equal(np.asarray(normals), eq[:, :3]), "normals_are_equation_normals", sig)
     rec.close("unit_normals", np.linalg.norm(eq[:, :3], axis=1), 1.0, 1e-12, sig)
-    rec.close("normals_outward", eq[:, :3], nrm[omap], 1e-9, sig)
-    rec.close("offsets", -eq[:, 3], off[omap], 1e-9 * L + tolp, sig)
+    # a normal computed from three vertices at distance L carries an error of about eps*L/D; the plane offset
+    # (a dot product with a position) inherits L times that
+    tol_n = 1e-9 + 1e3 * EPS * L / D
+    rec.close("normals_outward", eq[:, :3], nrm[omap], tol_n, sig)
+    rec.close("offsets", -eq[:, 3], off[omap], tol_n * L + tolp, sig)
     dist = V @ eq[:, :3].T + eq[:, 3][None, :]
     for i, fc in enumerate(pf):
         on = np.zeros(len(V), dtype=bool)
@@ -140,6 +153,7 @@ def _check_structure(rec, P, V, facets, nrm, off, edges, nb, sig, ambiguous, con
 def _convex(case, rec):
     c = zoo.build_convex(case["cvx"])
     V, R, t, s = zoo.apply_placement(case["place"], c["verts"])
+    V = _far(V, case)
     V = V[perm_from_noise(case["perm"], len(V))]
     facets, nrm, off, edges, nb = _oracle(V)
     amb = coplanarity_ambiguous(V, facets, nrm, off)
@@ -177,6 +191,7 @@ def _shuffled_faces(facets, nz, mode):
 def _sort(case, rec):
     c = zoo.build_convex(case["cvx"])
     V, R, t, s = zoo.apply_placement(case["place"], c["verts"])
+    V = _far(V, case)
     facets, nrm, off, edges, nb = _oracle(V)
     amb = coplanarity_ambiguous(V, facets, nrm, off)
     F = _shuffled_faces(facets, case["fperm"], case["mode"])
@@ -199,6 +214,7 @@ def _sort(case, rec):
 def _merge(case, rec):
     c = zoo.build_convex(case["cvx"])
     V, R, t, s = zoo.apply_placement(case["place"], c["verts"])
+    V = _far(V, case)
     facets, nrm, off, edges, nb = _oracle(V)
     amb = coplanarity_ambiguous(V, facets, nrm, off)
     u = list(case["fperm"])
@@ -235,6 +251,12 @@ def clauses():
         Clause("sort_faces", _case(14), _sort, quick=250, thorough=6000, rule="Polyhedron.sort_faces", floors={"faces_disordered": 0.4}),
         Clause("merge_faces", _case(14), _merge, quick=250, thorough=6000, rule="Polyhedron.merge_faces",
                floors={"nontriangular": 0.3, "winding:mixed": 0.25}),
+        Clause("sort_faces_far_from_origin", _case(12, True), _sort, quick=200, thorough=4000,
+               rule="sort_faces on shapes 1e3..3e6 diameters away from the origin", floors={}),
+        Clause("merge_faces_far_from_origin", _case(12, True), _merge, quick=200, thorough=4000,
+               rule="merge_faces on shapes 1e3..3e6 diameters away from the origin", floors={}),
+        Clause("convex_structure_far_from_origin", _case(14, True), _convex, quick=200, thorough=4000,
+               rule="ConvexPolyhedron 1e3..3e6 diameters away from the origin", floors={}),
     ]
 
 
